@@ -1589,7 +1589,7 @@ void readin (void)
 		visible_define ( "M4_MODE_DEBUG");
 
 	if (ctrl.lex_compat)
-		visible_define ( "M4_MODE_OPTIONS.LEX_COMPAT");
+		visible_define ( "M4_MODE_LEX_COMPAT");
 
 	if (ctrl.do_yywrap)
 		visible_define ( "M4_MODE_YYWRAP");
